@@ -847,4 +847,83 @@ theorem pendingOf_connected (st : SState) (h : C20Active st) : (pendingOf st).co
   rcases h with h | ⟨a, b, c, h⟩ <;> rw [h] <;> rfl
 
 
+/-! ## the whole `Incoming` event does not depend on the pending wrapper -/
+
+def finishDisc (d : Sess) (nx : SState) : Sess :=
+  (if d.closeInbox.pendingStop then d.closeInbox.setStopped else d.closeInbox).setSt nx
+
+theorem setState_disc_nil (fuel : Nat) (s : Sess) (nx : SState) (hn : nx.connected = false) (hc : s.st.connected = true)
+    (hi : s.inbox = []) : setState (fuel + 1) s nx = finishDisc (discMid s) nx := by
+  unfold setState finishDisc
+  simp only [hn, Bool.not_false, if_true, hc]
+  rw [drainIn_nil fuel s hi, drainIn_nil fuel _ (by rw [discMid_inbox]; exact hi)]
+
+theorem finishDisc_setSt (d : Sess) (b nx : SState) : finishDisc (d.setSt b) nx = finishDisc d nx := by
+  unfold finishDisc
+  show (if d.closeInbox.pendingStop = true then (d.closeInbox.setSt b).setStopped else d.closeInbox.setSt b).setSt nx = _
+  split <;> rfl
+
+set_option linter.unusedSimpArgs false in
+/-- for the logout notification only `loggedOn` matters when neither tag is `logout` / `logon` -/
+theorem discMid_setSt (s : Sess) (b : SState) (hl : b.loggedOn = true) (hs : s.st.loggedOn = true) :
+    discMid (s.setSt b) = (discMid s).setSt b := by
+  unfold discMid
+  have h1 : (s.setSt b).st.loggedOn = true := hl
+  simp only [h1, hs, Bool.true_or, if_true]
+  have e1 : ((s.setSt b).emit Obs.onLogout).cfg.resetOnDisconnect = s.cfg.resetOnDisconnect := rfl
+  have e2 : (s.emit Obs.onLogout).cfg.resetOnDisconnect = s.cfg.resetOnDisconnect := rfl
+  by_cases hr : s.cfg.resetOnDisconnect = true
+  · have hr1 : ((s.setSt b).emit Obs.onLogout).cfg.resetOnDisconnect = true := hr
+    have hr2 : (s.emit Obs.onLogout).cfg.resetOnDisconnect = true := hr
+    simp only [hr1, hr2, ↓reduceIte, Bool.false_eq_true]
+    by_cases ho : s.out = true
+    · have ho1 : (dropAndReset ((s.setSt b).emit Obs.onLogout)).out = true := ho
+      have ho2 : (dropAndReset (s.emit Obs.onLogout)).out = true := ho
+      simp only [ho1, ho2, ↓reduceIte, Bool.false_eq_true]; rfl
+    · have ho1 : ¬ (dropAndReset ((s.setSt b).emit Obs.onLogout)).out = true := ho
+      have ho2 : ¬ (dropAndReset (s.emit Obs.onLogout)).out = true := ho
+      simp only [ho1, ho2, ↓reduceIte, Bool.false_eq_true]; rfl
+  · have hr1 : ¬ ((s.setSt b).emit Obs.onLogout).cfg.resetOnDisconnect = true := hr
+    have hr2 : ¬ (s.emit Obs.onLogout).cfg.resetOnDisconnect = true := hr
+    simp only [hr1, hr2, ↓reduceIte, Bool.false_eq_true]
+    by_cases ho : s.out = true
+    · have ho1 : ((s.setSt b).emit Obs.onLogout).out = true := ho
+      have ho2 : (s.emit Obs.onLogout).out = true := ho
+      simp only [ho1, ho2, ↓reduceIte, Bool.false_eq_true]; rfl
+    · have ho1 : ¬ ((s.setSt b).emit Obs.onLogout).out = true := ho
+      have ho2 : ¬ (s.emit Obs.onLogout).out = true := ho
+      simp only [ho1, ho2, ↓reduceIte, Bool.false_eq_true]; rfl
+
+
+theorem fuelOf_setSt (s : Sess) (b : SState) : fuelOf (s.setSt b) = fuelOf s := rfl
+
+/-- `Incoming(m)` gives the same event on `s` and on `s` re-tagged `b`, provided the handler result is the same up to the
+    tag, both tags are logged-on ones, and — when the handler ends the session — nothing is buffered -/
+theorem step_incoming_retag (s : Sess) (m : InMsg) (b : SState) (hl : s.st.loggedOn = true) (hb : b.loggedOn = true)
+    (key : fixMsgInCore (s.clearLog.setSt b) m = ((fixMsgInCore s.clearLog m).1.setSt b, (fixMsgInCore s.clearLog m).2))
+    (hfr : (fixMsgInCore s.clearLog m).1.st = s.st ∧ (fixMsgInCore s.clearLog m).1.inbox = s.inbox)
+    (hnx : (fixMsgInCore s.clearLog m).2.connected = true ∨ s.inbox = []) :
+    step (s.setSt b) (.incomingMsg (some m)) = step s (.incomingMsg (some m)) := by
+  have hc : s.clearLog.st.connected = true := loggedOn_connected _ hl
+  have hcb : (s.clearLog.setSt b).st.connected = true := loggedOn_connected _ hb
+  unfold step stepCore
+  have e0 : (s.setSt b).clearLog = s.clearLog.setSt b := rfl
+  rw [e0, fuelOf_setSt]
+  simp only [fuelOf_succ]
+  rw [incoming_some _ _ _ hc, incoming_some _ _ _ hcb, key]
+  generalize fixMsgInCore s.clearLog m = r at hfr hnx
+  obtain ⟨s1, nx⟩ := r
+  dsimp only at hfr hnx ⊢
+  have hset : setState (4 * s.clearLog.inbox.length + 6 + 1) (s1.setSt b) nx = setState (4 * s.clearLog.inbox.length + 6 + 1) s1 nx := by
+    by_cases hn : nx.connected = true
+    · rw [setState_connected _ _ _ hn, setState_connected _ _ _ hn]; rfl
+    · have hn' : nx.connected = false := by simpa using hn
+      have hi : s.inbox = [] := by rcases hnx with h | h; exact absurd h hn; exact h
+      have hl1 : s1.st.loggedOn = true := by rw [hfr.1]; exact hl
+      rw [setState_disc_nil _ _ _ hn' (loggedOn_connected _ hb) (by show s1.inbox = []; rw [hfr.2]; exact hi),
+        setState_disc_nil _ _ _ hn' (loggedOn_connected _ hl1) (by rw [hfr.2]; exact hi),
+        discMid_setSt s1 b hb hl1, finishDisc_setSt]
+  have e7 : 4 * s.clearLog.inbox.length + 7 = 4 * s.clearLog.inbox.length + 6 + 1 := rfl
+  rw [e7, hset]
+
 end Qfx.Sess
